@@ -883,6 +883,35 @@ func init() {
 	})
 	reg("internal/bytealg.Compare", func(fr *frame, a []Value) Value { return intrinsics["bytes.Compare"](fr, a) })
 
+	// ---- OS stub: the immutable-flag probe of efi/attr (os.OpenFile + ioctl on the real file) ----
+	reg("github.com/foxboron/go-uefi/efi/attr.GetAttr", func(fr *frame, a []Value) Value {
+		e := fr.e
+		p := e.path
+		p.uniq++
+		fail := e.symScalar(fmt.Sprintf("os.getattr.fail#%d", p.uniq), 8)
+		p.inputs = p.inputs[:len(p.inputs)-1] // environment, not a replay input
+		flags := e.symScalar(fmt.Sprintf("os.getattr.flags#%d", p.uniq), 32)
+		p.inputs = p.inputs[:len(p.inputs)-1]
+		switch {
+		case e.Decide(e.tb.Eq(fail, e.tb.Const(8, 0))):
+			return Tuple{flags, Iface{}}
+		case e.Decide(e.tb.Eq(fail, e.tb.Const(8, 1))):
+			return Tuple{e.tb.Const(32, 0), e.globalVal("io/fs", "ErrNotExist")}
+		}
+		return Tuple{e.tb.Const(32, 0), e.newError("ioctl: operation not supported")}
+	})
+	reg("github.com/foxboron/go-uefi/efi/attr.SetAttr", func(fr *frame, a []Value) Value {
+		e := fr.e
+		p := e.path
+		p.uniq++
+		fail := e.symScalar(fmt.Sprintf("os.setattr.fail#%d", p.uniq), 8)
+		p.inputs = p.inputs[:len(p.inputs)-1]
+		if e.Decide(e.tb.Eq(fail, e.tb.Const(8, 0))) {
+			return Iface{}
+		}
+		return e.newError("ioctl: operation not permitted")
+	})
+
 	// ---- strings ----
 	reg("strings.ReplaceAll", func(fr *frame, a []Value) Value {
 		e := fr.e
